@@ -150,6 +150,34 @@ pub fn c13(log: &mut Log, seed: u64, tier: &str) {
                 log.ev(json!({"ev": "Mem", "what": "build", "scenario": format!("build-prefixkeys-{}-{}", if set { "set" } else { "map" }, gname),
                               "n": n, "k": 1, "cells": cells, "maxFan": 4, "maxKeyLen": KEYLEN + 1, "live": jn(live), "peak": jn(peak), "allocs": jn(allocs)}));
             }
+            // a fourth family (maps): fan-out 32 at every level and strictly decreasing values, so
+            // every insert pushes an output difference down into long-lived nodes near the root
+            if !set {
+                for &n in &ns {
+                    if n > 1_000_000 {
+                        continue;
+                    }
+                    const DIG: &[u8] = b"0123456789ABCDEFGHIJKLMNOPQRSTUV";
+                    fst::raw::verif::set_geometry(geo);
+                    let snap = alloc::begin();
+                    let mut b = Builder::new(io::sink()).unwrap();
+                    let cells = { let (r, c) = fst::raw::verif::last_geometry(); let _ = cells; r * c };
+                    let mut key = *b"key:0000";
+                    for i in 0..n {
+                        let mut x = i;
+                        for d in (4..8).rev() {
+                            key[d] = DIG[x % 32];
+                            x /= 32;
+                        }
+                        b.insert(&key, (2 * n - i) as u64).unwrap();
+                    }
+                    let (live, peak, allocs) = alloc::read(&snap);
+                    b.finish().unwrap();
+                    fst::raw::verif::set_geometry(None);
+                    log.ev(json!({"ev": "Mem", "what": "build", "scenario": format!("build-decr32-map-{}", gname),
+                                  "n": n, "k": 1, "cells": cells, "maxFan": 32, "maxKeyLen": 8, "live": jn(live), "peak": jn(peak), "allocs": jn(allocs)}));
+                }
+            }
             // a third family: very many *distinct* wide nodes (fan-out 33, above the index
             // threshold), one per group of 33 keys
             for &n in &ns {
@@ -277,9 +305,68 @@ fn c14_lookup_shapes(log: &mut Log) {
     }
 }
 
+/// Long keys: scans that start from a lower bound spelling a long existing path (the seek walks
+/// 100+ nodes before the iteration starts), bounded above, and searches, over N and 10 N keys.
+fn c14_long_keys(log: &mut Log, seed: u64, thorough: bool) {
+    const PRE: usize = 120;
+    let ns: &[usize] = if thorough { &[10_000, 100_000, 1_000_000] } else { &[10_000, 100_000] };
+    for &n in ns {
+        let maxstep = std::cmp::max(1, (16_000_000 / n) as u64);
+        let mut gen = KeyGen::new(seed + 99, maxstep);
+        let mut key = vec![0u8; PRE + KEYLEN];
+        for (i, b) in key[..PRE].iter_mut().enumerate() {
+            *b = b'a' + (i % 23) as u8;
+        }
+        let mut b = Builder::memory();
+        let mut first = vec![];
+        let mut mid = vec![];
+        for i in 0..n {
+            let (k, _) = gen.next();
+            key[PRE..].copy_from_slice(k);
+            b.insert(&key, i as u64).unwrap();
+            if i == 0 {
+                first = key.clone();
+            }
+            if i == n / 3 {
+                mid = key.clone();
+            }
+        }
+        let bytes = b.into_inner().unwrap();
+        let f = Fst::new(&bytes[..]).unwrap();
+        let bounds: Vec<(&str, Vec<u8>)> = vec![("ge-prefix65", first[..65].to_vec()), ("ge-prefix", first[..PRE].to_vec()), ("gt-key", mid.clone()), ("ge-key-ext", { let mut x = mid.clone(); x.push(0); x })];
+        for (name, lo) in &bounds {
+            let snap = alloc::begin();
+            let mut s = if name.starts_with("gt") { f.range().gt(lo).into_stream() } else { f.range().ge(lo).into_stream() };
+            let mut items = 0usize;
+            while let Some(_) = s.next() {
+                items += 1;
+            }
+            let (_, peak, allocs) = alloc::read(&snap);
+            drop(s);
+            log.ev(json!({"ev": "Mem", "what": "range", "scenario": format!("range-long-{}", name), "n": n, "k": 1, "maxKeyLen": PRE + KEYLEN + 1,
+                          "peak": jn(peak), "allocs": jn(allocs), "items": items}));
+        }
+        // the same with an automaton on top (every key matches)
+        {
+            let aut = TableAut { n: 1, start: 1, cls: vec![1usize; 256], delta: vec![vec![1]], matches: vec![true], can: vec![true], always: vec![false] };
+            let snap = alloc::begin();
+            let mut s = f.search(&aut).ge(&first[..PRE]).into_stream();
+            let mut items = 0usize;
+            while let Some(_) = s.next() {
+                items += 1;
+            }
+            let (_, peak, allocs) = alloc::read(&snap);
+            drop(s);
+            log.ev(json!({"ev": "Mem", "what": "search", "scenario": "search-long-ge-prefix", "n": n, "k": 1, "maxKeyLen": PRE + KEYLEN + 1,
+                          "peak": jn(peak), "allocs": jn(allocs), "items": items}));
+        }
+    }
+}
+
 pub fn c14(log: &mut Log, seed: u64, tier: &str) {
     let thorough = tier == "thorough";
     c14_lookup_shapes(log);
+    c14_long_keys(log, seed, thorough);
     let ns: Vec<usize> = if thorough { vec![10_000, 100_000, 1_000_000] } else { vec![10_000, 100_000] };
     for &n in &ns {
         let bytes = build_map(n, seed, std::cmp::max(1, (16_000_000 / n) as u64));
